@@ -144,3 +144,106 @@ pub fn process_line(v: &Value, want: &HWant, rep: &mut Report) {
         x["line"] = v.clone();
     }
 }
+
+// ---------------------------------------------------------------------------------------------
+// C18 for histograms beyond the token lattice: arbitrary finite edges (uniform grids that are
+// uniform only up to rounding, with_const_width output, random sorted edges), random adds, a
+// serde round trip at a random position, continue on both copies, merge the two.
+use rand::{Rng, SeedableRng};
+use rand_xoshiro::Xoshiro256PlusPlus;
+use serde_json::json;
+
+fn serde_case<H: HistT>(edges: Vec<f64>, label: &str, rng: &mut Xoshiro256PlusPlus, rep: &mut Report) {
+    rep.replays += 1;
+    let h0 = match H::from_ranges(edges.clone()) {
+        Ok(h) => h,
+        Err(_) => return,
+    };
+    let lo = edges[0];
+    let hi = edges[H::LEN];
+    let sample = |rng: &mut Xoshiro256PlusPlus| -> f64 {
+        match rng.random_range(0..4) {
+            0 => edges[rng.random_range(0..edges.len())],
+            _ => lo + (hi - lo) * rng.random::<f64>(),
+        }
+    };
+    let mut a = h0.clone();
+    let n1 = rng.random_range(0..20);
+    for _ in 0..n1 {
+        let _ = a.add(sample(rng));
+    }
+    let fail = |rep: &mut Report, what: String| {
+        rep.violation(json!({"property": "C18", "family": "histogram", "type": H::NAME, "embedding": label,
+            "history": {"edges": edges, "adds_before_checkpoint": n1}, "accessor": "roundtrip", "what": what,
+            "signature": format!("C18|{}|roundtrip-{}", H::NAME, label)}));
+    };
+    let j = match a.to_json() {
+        Some(j) => j,
+        None => return,
+    };
+    let mut b = H::from_json(&j);
+    rep.evaluations += 4;
+    let same_bits = |x: &[f64], y: &[f64]| x.len() == y.len() && x.iter().zip(y).all(|(p, q)| p.to_bits() == q.to_bits());
+    if !same_bits(&a.ranges(), &b.ranges()) {
+        fail(rep, format!("restored edges differ bit for bit: {:?} vs {:?}", b.ranges(), a.ranges()));
+        return;
+    }
+    if a.bins() != b.bins() {
+        fail(rep, "restored counts differ".into());
+        return;
+    }
+    for _ in 0..20 {
+        let x = sample(rng);
+        let ra = a.add(x).is_ok();
+        let rb = b.add(x).is_ok();
+        if ra != rb || a.bins() != b.bins() {
+            fail(rep, format!("continuing with sample {:e} diverged after the round trip", x));
+            return;
+        }
+    }
+    // a never-serialised twin and the restored copy must still merge
+    let merged = std::panic::catch_unwind(std::panic::AssertUnwindSafe(|| {
+        let mut c = a.clone();
+        c.merge(&b);
+        c.bins()
+    }));
+    match merged {
+        Ok(bins) => {
+            let want: Vec<u64> = a.bins().iter().zip(b.bins()).map(|(x, y)| x + y).collect();
+            if bins != want {
+                fail(rep, "merge of the original with its restored copy is not the bin-wise sum".into());
+            }
+        }
+        Err(_) => fail(rep, "merging the original with its restored copy panicked (edges no longer identical)".into()),
+    }
+}
+
+fn serde_family<H: HistT>(rng: &mut Xoshiro256PlusPlus, reps: usize, rep: &mut Report) {
+    let n = H::LEN;
+    for r in 0..reps {
+        rep.behaviours += 1;
+        rep.nontrivial.insert(hash_str(&format!("{}{}", H::NAME, r)));
+        // uniform up to rounding: i / n, i * 0.1, offset grids
+        let scale = [1.0, 0.1, 3.0, 1e-3, 7.7][r % 5];
+        serde_case::<H>((0..=n).map(|i| i as f64 / n as f64 * scale).collect(), "i/LEN*scale", rng, rep);
+        serde_case::<H>((0..=n).map(|i| i as f64 * 0.1 * scale).collect(), "i*0.1*scale", rng, rep);
+        serde_case::<H>((0..=n).map(|i| 1000.0 + i as f64 * 0.3).collect(), "1000+0.3i", rng, rep);
+        // what with_const_width itself produces
+        let (s0, s1) = (rng.random::<f64>() * 10.0 - 5.0, rng.random::<f64>() * 10.0 + 5.5);
+        serde_case::<H>(H::with_const_width(s0, s1).ranges(), "with_const_width", rng, rep);
+        // random sorted edges with repeats
+        let mut e: Vec<f64> = (0..=n).map(|_| (rng.random::<f64>() * 8.0).floor() / 3.0).collect();
+        e.sort_by(|x, y| x.partial_cmp(y).unwrap());
+        serde_case::<H>(e, "random-sorted-with-repeats", rng, rep);
+    }
+}
+
+pub fn direct_histserde(seed: u64, reps: usize, rep: &mut Report) {
+    let mut rng = Xoshiro256PlusPlus::seed_from_u64(seed);
+    serde_family::<h2::Histogram>(&mut rng, reps, rep);
+    serde_family::<h3::Histogram>(&mut rng, reps, rep);
+    serde_family::<h10::Histogram>(&mut rng, reps, rep);
+    serde_family::<average::Histogram10>(&mut rng, reps, rep);
+    serde_family::<h100::Histogram>(&mut rng, reps, rep);
+    rep.sample(json!({"family": "histogram serde", "edge_families": ["i/LEN*scale", "i*0.1*scale", "1000+0.3i", "with_const_width", "random-sorted-with-repeats"], "reps": reps}));
+}
